@@ -795,26 +795,23 @@ class EvalMixin:
         return d
 
     def make_set(self, items):
+        """set(items): an item is dropped iff it EQUALS an earlier one; equality that depends on symbolic values (also
+        inside tuples) is decided by forking the path."""
         out = []
         for it in items:
-            if is_sym(it) or (isinstance(it, EnumVal) and not it.concrete):
-                # decide equality with existing members
-                dup = False
-                for o in out:
-                    if self.branch(self.sym_eq(o, it)):
+            dup = False
+            for o in out:
+                eq = self.sym_eq(o, it)
+                if isinstance(eq, bool):
+                    if eq:
                         dup = True
                         break
-                if not dup:
-                    out.append(it)
-            else:
-                if not any((not is_sym(o)) and self._concrete_eq(o, it) for o in out):
-                    dup = False
-                    for o in out:
-                        if is_sym(o) and self.branch(self.sym_eq(o, it)):
-                            dup = True
-                            break
-                    if not dup:
-                        out.append(it)
+                    continue
+                if self.branch(eq):
+                    dup = True
+                    break
+            if not dup:
+                out.append(it)
         return MSet(out)
 
     def _concrete_eq(self, a, b):
